@@ -576,3 +576,113 @@ pub fn containers(g: &mut Gen, n: usize, out: &mut Sink) {
         one_container(&c, out);
     }
 }
+
+/// whole-input discipline of the schema-prefixed entry point: bytes left over after the value and
+/// every proper prefix of a schema-prefixed blob are rejected (C05), whatever the type
+pub fn with_schema_framing<T: FullS>(g: &mut Gen, out: &mut Sink) {
+    let v = T::gen(g, 0);
+    let enc = match catch_unwind(AssertUnwindSafe(|| borsh::try_to_vec_with_schema(&v))) {
+        Ok(Ok(bs)) => bs,
+        _ => return,
+    };
+    if enc.len() > 2000 {
+        return;
+    }
+    let run = |bytes: &[u8]| -> String {
+        match catch_unwind(AssertUnwindSafe(|| borsh::try_from_slice_with_schema::<T>(bytes))) {
+            Ok(Ok(u)) => format!("ok {}", canon_of(&u)),
+            Ok(Err(e)) => show_err(&e),
+            Err(_) => "panic".into(),
+        }
+    };
+    for tail in [1usize, 2, 5] {
+        let mut x = enc.clone();
+        x.extend(g.bytes(tail));
+        let case = format!("wsraw {} {} {}", MODE, T::ty(), hex(&x));
+        let o = run(&x);
+        out.case(&case, &o);
+        out.oracle("C05", o == "err invalidData notAllBytesRead", &case, &format!("schema-prefixed value followed by {} byte(s): {}", tail, &o[..o.len().min(80)]));
+        out.oracle("C17", !o.starts_with("ok"), &case, &format!("schema-prefixed value followed by {} byte(s) accepted", tail));
+    }
+    // two blobs back to back are not one value
+    let mut two = enc.clone();
+    two.extend_from_slice(&enc);
+    let case = format!("wsraw {} {} {}", MODE, T::ty(), hex(&two));
+    let o = run(&two);
+    out.case(&case, &o);
+    out.oracle("C05", !o.starts_with("ok"), &case, "two schema-prefixed blobs accepted as one value");
+    let cuts: Vec<usize> = if enc.len() <= 48 { (0..enc.len()).collect() } else {
+        let mut c: Vec<usize> = (0..8).map(|_| g.below(enc.len() as u64) as usize).collect();
+        c.push(enc.len() - 1);
+        c.push(0);
+        c
+    };
+    for k in cuts {
+        let x = &enc[..k];
+        let case = format!("wsraw {} {} {}", MODE, T::ty(), hex(x));
+        let o = run(x);
+        out.case(&case, &o);
+        out.oracle("C05", !o.starts_with("ok"), &case, &format!("proper prefix ({} of {} bytes) of a schema-prefixed blob accepted", k, enc.len()));
+    }
+}
+
+/// hostile embedded schemas through `try_from_slice_with_schema` (C07: untrusted bytes): definition
+/// graphs whose naive traversal is exponential (every level names the next one twice) or very deep
+/// (a chain of tens of thousands of definitions).  The entry point has to answer - reject - in time
+/// and stack bounded by the input, as the plain decode of `(BorshSchemaContainer, T)` does.  Run on
+/// a thread with a small stack and under the watchdog.
+pub fn with_schema_hostile(out: &mut Sink) {
+    fn blob(c: &BorshSchemaContainer, value: &[u8]) -> Vec<u8> {
+        let mut b = borsh::to_vec(c).unwrap();
+        b.extend_from_slice(value);
+        b
+    }
+    fn on_small_stack(bytes: Vec<u8>) -> String {
+        let h = std::thread::Builder::new().stack_size(512 * 1024).spawn(move || {
+            match catch_unwind(AssertUnwindSafe(|| borsh::try_from_slice_with_schema::<u8>(&bytes))) {
+                Ok(Ok(u)) => format!("ok {}", canon_of(&u)),
+                Ok(Err(e)) => show_err(&e),
+                Err(_) => "panic".into(),
+            }
+        }).unwrap();
+        h.join().unwrap_or_else(|_| "panic".into())
+    }
+    // (a) doubling graphs: tuples / structs / enums / sequences naming the next level twice
+    for (shape, levels) in [(0u8, 48usize), (1, 40), (2, 44), (0, 6)] {
+        let mut m: BTreeMap<Declaration, Definition> = BTreeMap::new();
+        for i in 0..levels {
+            let next = format!("L{:03}", i + 1);
+            let d = match shape {
+                0 => Definition::Tuple { elements: vec![next.clone(), next.clone()] },
+                1 => Definition::Struct { fields: Fields::NamedFields(vec![("a".into(), next.clone()), ("b".into(), next.clone())]) },
+                _ => Definition::Enum { tag_width: 1, variants: vec![(0, "A".into(), next.clone()), (1, "B".into(), next.clone())] },
+            };
+            m.insert(format!("L{:03}", i), d);
+        }
+        m.insert(format!("L{:03}", levels), Definition::Primitive(1));
+        let c = BorshSchemaContainer::new("L000".to_string(), m);
+        let bytes = blob(&c, &[7]);
+        let case = format!("wsraw {} {} {}", MODE, <u8 as crate::dynty::Dyn>::ty(), hex(&bytes));
+        out.announce_timed(&case, 20);
+        let o = on_small_stack(bytes);
+        out.done();
+        out.case(&case, &o);
+        out.oracle("C07", o == "err invalidData schemaMismatch", &case, &o);
+        out.oracle("C17", o == "err invalidData schemaMismatch", &case, &o);
+    }
+    // (b) a very deep chain (no model line: the blob is several hundred kilobytes)
+    for depth in [2000usize, 30000] {
+        let mut m: BTreeMap<Declaration, Definition> = BTreeMap::new();
+        for i in 0..depth {
+            m.insert(format!("N{:06}", i), Definition::Tuple { elements: vec![format!("N{:06}", i + 1)] });
+        }
+        m.insert(format!("N{:06}", depth), Definition::Primitive(1));
+        let c = BorshSchemaContainer::new("N000000".to_string(), m);
+        let bytes = blob(&c, &[7]);
+        let case = format!("wsraw-chain {} depth={} bytes={}", MODE, depth, bytes.len());
+        out.announce_timed(&case, 30);
+        let o = on_small_stack(bytes);
+        out.done();
+        out.oracle("C07", o == "err invalidData schemaMismatch", &case, &o);
+    }
+}
